@@ -291,11 +291,18 @@ class DevirtInliner(Inliner):
         return super()._block(ctx, expanded, taken, origin, stack)
 
 
-def dview(repo: Repo, fi: FuncInfo, recv: ClassInfo | None = None, allow: Callable[[FuncInfo, FuncInfo], bool] | None = None, max_depth: int = 6, tag: str = "") -> FuncInfo:
+def dview(repo: Repo, fi: FuncInfo, recv: ClassInfo | None = None, allow: Callable[[FuncInfo, FuncInfo], bool] | None = None, max_depth: int = 6, tag: str = "", normalise: bool = False) -> FuncInfo:
+    """`normalise`: functional idioms (map / filter / chain / attrgetter / partial ...) are rewritten as comprehensions
+    (rules/c05_functional.py) before anything reads the view."""
     cache = repo.__dict__.setdefault("_c05_views", {})
-    key = (fi.fq, recv.fq if recv else None, tag, max_depth)
+    key = (fi.fq, recv.fq if recv else None, tag, max_depth, normalise)
     if key not in cache:
-        cache[key] = DevirtInliner(repo, types_of(repo), recv, allow, max_depth).view(fi)
+        v = DevirtInliner(repo, types_of(repo), recv, allow, max_depth).view(fi)
+        if normalise:
+            from .c05_functional import normalise_view
+
+            normalise_view(repo, v)
+        cache[key] = v
     return cache[key]
 
 
